@@ -610,6 +610,10 @@ func runHistory(h rhistory) (res renderOutcome) {
 				}
 				if got != exp {
 					fail(viewProp, "inline view rows do not show exactly the latest view", fmt.Sprintf("view line %d = %q", i, exp), fmt.Sprintf("%q", got))
+					if printedRows > 0 {
+						// C14 (round 16, C14-p): "directly above the live view" - what lies below the lines this frame printed must BE the view
+						fail("C14", "the rows directly below the lines printed in this frame are not the live view", fmt.Sprintf("view line %d = %q below the printed lines", i, exp), fmt.Sprintf("%q", got))
+					}
 					break
 				}
 			}
